@@ -57,10 +57,11 @@ impl AsRawMsg for Msg {
     fn from_raw_msg(msg: RawMsg) -> Result<Self> {
         let u32s = unsafe { msg.get_u32s() }?;
         let b = msg.get_bytes()?;
-        let cong_alg = if b[0] == 0 {
+        let cong_alg = if b.is_empty() || b[0] == 0 {
             None
         } else {
-            let end = b.iter().position(|&c| c == b'\0').unwrap_or(b.len());
+            // a name field with no NUL terminator is not a name
+            let end = b.iter().position(|&c| c == b'\0').unwrap_or(b.len() - 1);
             if let Ok(s) = std::ffi::CStr::from_bytes_with_nul(&b[..end+1]) {
                 Some(s.to_str()?.to_owned())
             } else {
